@@ -105,3 +105,20 @@ def run(cx):
             cx.add('S-ENCDEC', 'decrypt/c1len-polarity', picked(te[0]) == {33} and picked(fe[0]) == {65},
                    'compressed=true selects 33 bytes, false selects 65', G.where(fn, b))
             break
+
+
+_run0 = run
+
+
+def run(cx):
+    from .C05 import zero_check
+    _run0(cx)
+    fn = cx.fn('<impl key::Sm2PrivateKey>::decrypt')
+    if fn is None:
+        return
+    P = Prov(fn, cx.F); cn = Canon(fn, P)
+    kd = FR.calls_of(fn, 'util::kdf')
+    if len(kd) == 1:
+        t = cn.c(norm(P.local(fn.blocks[kd[0]]['term']['dest']['l'], fn.blocks[kd[0]]['term']['target'], 0)))
+        zero_check(cx, fn, P, cn, 'decrypt', t)
+        errs = G.err_sinks(fn)
